@@ -30,6 +30,7 @@ def main():
     ap.add_argument("--tier", default="quick")
     ap.add_argument("--checks", default=None)
     ap.add_argument("--scratch", action="store_true")
+    ap.add_argument("--no-result", action="store_true", help="do not update <seed-dir>/result.json (robustness sweeps)")
     a = ap.parse_args()
     seed = os.path.abspath(a.seed)
     meta = json.load(open(os.path.join(seed, "meta.json")))
@@ -72,6 +73,8 @@ def main():
         else:
             sh(["git", "-C", repo, "checkout", "--", "."])
             sh(["git", "-C", repo, "clean", "-fdq", "AegeanTools"])
+    if a.no_result:
+        return 0 if all(v["exit"] == 1 for v in results.values()) else 1
     path = os.path.join(seed, "result.json")
     old = {}
     if os.path.exists(path):
